@@ -452,7 +452,16 @@ def _r5(ctx, pkg):
     ctx.saw(UTIL, "_collect_variable_items")
     from ..valueflow import Flow
     fl = Flow(fn, UTIL)
-    st = [f for f in fl.facts if f.kind == "store" and f.target == "variables"]
+    # by role: the dictionary whose .items() is returned
+    acc = None
+    for f in fl.facts:
+        if f.kind == "return" and f.value:
+            v = simp(f.value)
+            if v[0] == "meth" and v[2] == "items" and v[1][0] == "acc":
+                acc = v[1][1]
+            elif v[0] == "acc":
+                acc = v[1]
+    st = [f for f in fl.facts if f.kind == "store" and f.target == acc]
     ok = False
     if len(st) == 1 and len(st[0].loops) == 2 and not st[0].guards:
         l1, l2 = st[0].loops
@@ -467,8 +476,21 @@ def _r5(ctx, pkg):
     comp = pkg.cls("Component")
     for prop, kind in (("params", "param"), ("deriveds", "derived"), ("constants", "constant")):
         f = comp.methods.get(prop)
-        src = ast.unparse(f) if f else ""
-        ctx.check(f is not None and f"VariableType.{kind}" in src and "sym.symbol" in src and "sym.value" in src, "R5", f"Component.{prop}", ("naunet/component.py", f.lineno if f else 0),
+        good = False
+        if f is not None:
+            for rf in Flow(f, "naunet/component.py").facts:
+                if rf.kind == "return" and rf.value:
+                    v = simp(rf.value)
+                    # {s.symbol: s.value for s in [s for _, s in self._symbols.items() if s.type == VariableType.<kind>]}  (any nesting of the filter)
+                    if v[0] == "call" and v[1] in (("global", "OrderedDict"), ("global", "dict")) and len(v[2]) == 1:
+                        v = ("comp", "dict") + tuple(v[2][0][2:]) if v[2][0][0] == "comp" else v
+                    if v[0] == "comp" and v[1] == "dict" and len(v[3]) == 1:
+                        bv = v[3][0][0]
+                        good = v[2] == ("tuple", (("attr", bv, "symbol"), ("attr", bv, "value"))) and \
+                            any(isinstance(x, tuple) and len(x) == 3 and x[0] == "cmp" and x[1] == ("Eq",) and x[2][0][0] == "attr" and x[2][0][2] == "type"
+                                and x[2][1] == ("attr", ("global", "VariableType"), kind) for x in walk(v)) and \
+                            any(x == ("meth", ("attr", SELF, "_symbols"), "items", (), ()) for x in walk(v))
+        ctx.check(good, "R5", f"Component.{prop}", ("naunet/component.py", f.lineno if f else 0),
                   f"Component.{prop} maps symbol -> value for the symbols of kind `{kind}`")
 
 
